@@ -1,4 +1,5 @@
 import J5V.Walker.PP.Reach
+import J5V.Walker.PP.Lens
 import J5V.Walker.PP.RulesTables
 import J5V.Walker.PP.FieldRun
 /-!
@@ -58,25 +59,43 @@ theorem kind_spec2 {f : CField} (h : isScalarKind f = true) (c : Addr) :
 /-- the type block of `f` at `d` -/
 abbrev tcfOf (f : CField) (d : Addr) : ContainerField := cfOf (kindSchema f) (kindSpec f) d
 
+/-- where the type block sits in the scope the body runs in: behind blocks (`pre`) that do not know the
+block keywords of the field (`field`, `option`), followed by the blocks its qualifiers added (`tailP`) -/
+def ScopeAt (sc : Scope) (tcf : ContainerField) (blockNames : List Str) (tailP : List ContainerField → Prop) :
+    Prop :=
+  ∃ pre tail, sc.blockSet = pre ++ tcf :: tail ∧ (∀ kw ∈ blockNames, ∀ o ∈ pre, Misses o kw) ∧ tailP tail
+
 /-- the qualifier chain of `f`, from the fresh type message to `qv` -/
-def FieldRunQ (f : CField) (qualNames : List Str) (qv : Node) : Prop :=
+def FieldRunQ (f : CField) (qualNames : List Str) (tailP : Addr → List ContainerField → Prop) (qv : Node) : Prop :=
   ∀ (outer : List ContainerField) (root : Option ContainerField) (d : Addr),
     (∀ n ∈ qualNames, ∀ o ∈ outer, Misses o n) →
     ∃ (sc2 : Scope) (spec2 : BlockSpec) (tail : List ContainerField),
-      sc2.blockSet = outer ++ (tcfOf f d :: tail) ∧
+      sc2.blockSet = outer ++ (tcfOf f d :: tail) ∧ tailP d tail ∧
       Exact (walkQualifiers j5Env (fieldQuals f) (typeScope outer (tcfOf f d) root) (kindSpec f)) d
         (freshMsg (kindSchema f)) (sc2, spec2) qv
 
 /-- the body lines of `f`, from `qv` to `tv`, however they reach the type block -/
-def FieldRunB (f : CField) (bodyNames : List Str) (qv tv : Node) : Prop :=
-  ∀ (sc : Scope) (pfx : List Str) (ek : Bool) (a b : Addr) (C : Node → Node),
-    BodyReach sc pfx (tcfOf f (a ++ b)) a b C bodyNames →
-    Exact (doBody j5Env sc (fieldBody f pfx ek)) a (C qv) () (C tv)
+def FieldRunB (f : CField) (bodyNames blockNames : List Str) (tailP : Addr → List ContainerField → Prop)
+    (qv tv : Node) : Prop :=
+  ∀ (sc : Scope) (pfx : List Str) (ek : Bool) (a b : Addr) (C : Option Node → Node),
+    BodyReach sc pfx (kindSchema f) (kindSpec f) a b C (· ∈ bodyNames) →
+    ScopeAt sc (tcfOf f (a ++ b)) blockNames (tailP (a ++ b)) →
+    Exact (doBody j5Env sc (fieldBody f pfx ek)) a (C (some qv)) () (C (some tv))
+
+/-- every name a field's qualifiers / body lines look up first (the blocks a field is written in — property,
+entity key, array / map — must not know them) -/
+def fieldLineNames : List Str :=
+  [b!"format", wRules, b!"ref", b!"flatten", wObject, wOneof, wEnum, wItems, wItemSchema, b!"listRules",
+   b!"entity", b!"foreign", wField, wOption]
 
 /-- what the property-level lemma needs to know about the field `f` -/
 structure FieldFacts (f : CField) where
   qualNames : List Str
   bodyNames : List Str
+  /-- the keywords of the block statements in the body (`field`, `option`) -/
+  blockNames : List Str
+  /-- the blocks the qualifier chain leaves in the scope behind the type block -/
+  tailP : Addr → List ContainerField → Prop
   qualVal : Node
   typeVal : Node
   pi : propInfo j5Env sField (fieldKind f) = some (kindIdx f, some gField, .container (kindSchema f))
@@ -84,10 +103,14 @@ structure FieldFacts (f : CField) where
   specName : (kindSpec f).name = none
   specTypeSelect : (kindSpec f).typeSelect = none
   msg : fieldMsg j5Env f = oneofMsg 15 (kindIdx f) typeVal
+  namesSub : ∀ n, n ∈ qualNames ∨ n ∈ bodyNames → n ∈ fieldLineNames
+  /-- the qualifiers of a field that is not a collection only look up `format` / `ref` -/
+  qualSub : isCollection f = false → ∀ n ∈ qualNames, n = b!"format" ∨ n = b!"ref"
+  blockSub : ∀ kw ∈ blockNames, kw = wField ∨ kw = wOption
   /-- the names the lines use are found in the type block -/
   found : ∀ d, ∀ n ∈ bodyNames, (findBlock n [tcfOf f d]).isSome = true
-  runQ : FieldRunQ f qualNames qualVal
-  runB : FieldRunB f bodyNames qualVal typeVal
+  runQ : FieldRunQ f qualNames tailP qualVal
+  runB : FieldRunB f bodyNames blockNames tailP qualVal typeVal
 
 /-! ## `rulesOk` unpacked -/
 
